@@ -37,6 +37,19 @@ def cases(tier, rng):
     for (w, h) in [(320, 240), (400, 3), (3, 400), (257, 255), (2, 301)] + ([(640, 480), (1000, 7)] if tier != 'quick' else []):
         yield J('ell_geom', -160, -100, w, h, 1)
     yield J('circ_geom', -100, -130, 240 if tier == 'quick' else 500, 1)
+    # Rectangle points()/contains() (suites of C16, run here too so that the C05 rectangle theorems are tied by ./check C05)
+    for w in range(0, 7):
+        for h in range(0, 7):
+            x, y = POSITIONS[(w + h) % 4]
+            yield J('rect_points', x, y, w, h)
+            for (qx, qy) in [(x - 1, y), (x, y - 1), (x, y), (x + w - 1, y + h - 1), (x + w, y + h - 1), (x + w - 1, y + h), (x + w // 2, y + h // 2)]:
+                yield J('rect_contains', x, y, w, h, qx, qy)
+    for _ in range(n):
+        r = rect(rng)
+        yield J('rect_points', *r)
+        yield J('rect_contains', *r, r[0] + rng.randrange(-2, r[2] + 3), r[1] + rng.randrange(-2, r[3] + 3))
+    # contains() only, on both sides of the machine ranges (model = checked arithmetic: PANIC when an intermediate does not fit)
+    yield from machine_cases(tier, rng)
     for _ in range(n):
         # range edges of the model's saturating operations (positions only; no point lists)
         x, y = coord(rng, True), coord(rng, True)
@@ -46,7 +59,58 @@ def cases(tier, rng):
         yield J('ell_wc', x, y, extent(rng, True), extent(rng, True))
 
 
+def machine_cases(tier, rng):
+    import math
+    dirs = [(1, 0), (-1, 0), (0, 1), (0, -1), (1, 1), (-1, 1), (1, -1), (-1, -1), (2, 1), (-1, 2)]
+    for d in [0, 1, 5, 11, 100, 1000, 20000, 32767, 32768, 32769, 40000, 46340, 46341, 65535, 65536, 70000]:
+        for (x, y) in [(0, 0), (-(d // 2), -(d // 2)), (1000, -2000)]:
+            cx, cy = x + max(d - 1, 0) // 2, y + max(d - 1, 0) // 2
+            pts = [(cx, cy), (x, y), (x - 1, y), (x + d - 1, y + d - 1), (x + d, y + d), (x, cy), (x - 1, cy), (cx, y), (cx, y - 1)]
+            for (sx, sy) in dirs:
+                nrm = math.hypot(sx, sy)
+                for r in [d / 2 - 1.5, d / 2 - 0.5, d / 2 + 0.5, 23168, 23170, 23171, 23173, 32768, 32773, 65536]:
+                    pts.append((cx + int(sx * r / nrm), cy + int(sy * r / nrm)))
+            for (qx, qy) in pts:
+                yield J('circ_in', x, y, d, qx, qy)
+    yield 'circ_in 0 0 11 32773 5'
+    sizes = [(320, 240), (1000, 500), (46340, 46340), (46341, 46341), (65535, 65535), (65536, 65536), (40000, 30000), (65536, 32768),
+             (65537, 32768), (100000, 20000), (3, 1000000), (1000000, 3), (2, 2 ** 29), (1, 5), (0, 9), (12, 12)]
+    for (w, h) in sizes:
+        for (x, y) in [(0, 0), (-(w // 2), -(h // 2))]:
+            cx, cy = x + max(w - 1, 0) // 2, y + max(h - 1, 0) // 2
+            rx = (2 ** 31) // max(h, 1)
+            ry = (2 ** 31) // max(w, 1)
+            pts = [(cx, cy), (x, y), (x - 1, y), (x + w - 1, y + h - 1), (x + w, y + h), (x, cy), (x - 1, cy), (cx, y), (cx, y - 1),
+                   (x + w // 7, y + h // 7), (x + w - 1 - w // 7, y + h // 6)]
+            for k in (1, 2):
+                for j in (-2, 0, 1, 3):
+                    pts += [(cx + k * rx + j, cy), (cx - k * rx - j, cy + 1), (cx, cy + k * ry + j), (cx + 1, cy - k * ry - j), (cx + k * rx + j, cy + k * ry - j)]
+            for (qx, qy) in pts:
+                if abs(qx) < 2 ** 31 and abs(qy) < 2 ** 31:
+                    yield J('ell_in', x, y, w, h, qx, qy)
+    n = 200 if tier == 'quick' else 4000
+    for _ in range(n):
+        d = rng.choice([rng.randrange(0, 70000), rng.randrange(32000, 33000), rng.randrange(0, 300)])
+        x, y = rng.randrange(-50000, 50000), rng.randrange(-50000, 50000)
+        cx, cy = x + d // 2, y + d // 2
+        r = rng.choice([d // 2, d // 2 + 1, rng.randrange(0, 70000), rng.randrange(23160, 23180), rng.randrange(32760, 32780)])
+        ang = rng.random() * 6.2832
+        yield J('circ_in', x, y, d, cx + int(r * math.cos(ang)), cy + int(r * math.sin(ang)))
+        w, h = rng.choice([(rng.randrange(0, 70000), rng.randrange(0, 70000)), (rng.randrange(0, 2000), rng.randrange(0, 2000)), (rng.randrange(0, 8), rng.randrange(0, 2 ** 22))])
+        cx, cy = x + w // 2, y + h // 2
+        rr = rng.choice([1.0, 0.99, 1.01, rng.random() * 3, (2 ** 31) / max(w * h, 1) * 2])
+        qx, qy = cx + int(rr * w / 2 * math.cos(ang)), cy + int(rr * h / 2 * math.sin(ang))
+        if abs(qx) < 2 ** 31 and abs(qy) < 2 ** 31:
+            yield J('ell_in', x, y, w, h, qx, qy)
+
+
 def search(tier, rng):
+    for d in [0, 1, 2, 5, 11, 64, 240, 1000, 20000, 32768, 32769, 46341, 65535]:
+        for (x, y) in [(0, 0), (-7, 3), (1000, -2000)]:
+            yield J('p_circ_far', x, y, d)
+    for (w, h) in [(11, 11), (320, 240), (1000, 500), (500, 1000), (3, 200), (40000, 30000), (65535, 2), (2, 65535), (1, 1), (100, 7)]:
+        for (x, y) in [(0, 0), (-7, 3)]:
+            yield J('p_ell_far', x, y, w, h)
     N = 24 if tier == 'quick' else 64
     for d in range(0, N + 1):
         for (x, y) in POSITIONS:
